@@ -169,8 +169,12 @@ def parse_state_strict(blob, cls, params):
         raise FormatError("not an object")
     keys = [k for k, _ in pairs]
     want = ["hashed_params", "side", "password", "xy_scalar"] + (["idS"] if cls == "S" else ["idA", "idB"])
-    if sorted(keys) != sorted(want):
-        raise FormatError("field set %r" % (sorted(keys),))
+    if len(set(keys)) != len(keys):
+        raise FormatError("duplicate field")
+    missing = [k for k in want if k not in keys]
+    if missing:
+        raise FormatError("missing field(s) %r, have %r" % (missing, sorted(keys)))
+    # additional fields are tolerated: released readers ignore what they do not know
     d = dict(pairs)
     if d["side"] != cls:
         raise FormatError("side %r" % (d["side"],))
